@@ -7,3 +7,14 @@ add('C01', 'exploration', 'bounded exhaustive enumeration of strings over code-p
     'Every string up to 3 (quick) / 4 (thorough) code-point classes and lexical fragments is tokenised by the real lexer and compared token-by-token with a reference first-match-wins scan; exhaustive within the bound, which covers every Python str of that length for the regex layer.',
     'Trusted: CPython re; the class-partition argument (DESIGN 2.1); longer strings only by locality of the scan loop.',
     'DESIGN.md 4/C01')
+
+_E1 = 'Trusted: CPython; the boring reference oracles in vlib/oracles.py; inputs longer than the fragment bound are covered only by the locality argument (DESIGN 7).'
+add('C02', 'exploration', 'bounded exhaustive enumeration of fragment strings through parse()',
+    'Every sequence of up to 3-5 structural/lexical fragments (raw and blank-joined) is parsed by the real code and the round-trip / str-equals-leaves / flatten oracle is evaluated on every node; exhaustive within the bound.',
+    _E1, 'DESIGN.md 4/C02')
+add('C03', 'exploration', 'bounded exhaustive enumeration of fragment strings, tree invariants + reference navigation',
+    'Same spaces as C02; on every tree: leaves == ungrouped token stream, parent pointers, non-empty groups, no sharing, cached values, and every navigation helper for every index/flag/offset against an explicit walk; exhaustive within the bound.',
+    _E1, 'DESIGN.md 4/C03')
+add('C04', 'exploration', 'bounded exhaustive enumeration of fragment strings through split() and parse(), pieces re-fed',
+    'Same spaces as C02 with the statement-boundary driver deepened; split/parse agreement, tiling of the input modulo whitespace and re-splitting of every piece, on every input; exhaustive within the bound.',
+    _E1, 'DESIGN.md 4/C04')
